@@ -113,6 +113,20 @@ def judge(ctx, spec, text, origin, doc_type=None):
                 ctx.count('agree_accept')
                 if V.has_instance(x):
                     ctx.count('class_values_compared')
+                rd = V.rdigest(ref.value)
+                if rd:
+                    # constructors that convert an omitted parameter: what
+                    # they were handed must be the Python default too
+                    ctx.count('received_arguments_compared')
+                    if V.rdigest(x) != rd:
+                        ctx.violation(
+                            'C02 value-differs constructor-received-other-'
+                            'than-the-python-default feature=%s' % feat,
+                            'constructors were handed %s, the documented '
+                            'rules hand them %s (document %r, model '
+                            'features %s)' % (
+                                short(V.rdigest(x)), short(rd), text[:300],
+                                mfeat), case)
             else:
                 ctx.violation(
                     'C02 value-differs %s feature=%s' % (
@@ -288,7 +302,18 @@ def small_models():
     M2 = cls('M2', [p('b', 'str', 'q')])
     M12 = cls('M12', [p('a', 'int'), p('b', 'str', 'q')],
               bases=['M1', 'M2'])
+    # _yatiml_defaults: the constructor turns an omitted (None) parameter
+    # into the override; what it is handed is the Python default all the same
+    Aovr = cls('A', [p('a', 'int'), p('b', ['opt', 'int'], None),
+                     p('c', ['opt', 'str'], None)],
+               defaults_override={'b': 99, 'c': 'other'},
+               sweeten=[['remove_defaults']], savorize=[['record']])
+    Aovx = cls('A', [p('a', 'int'), p('b', ['opt', 'int'], None)],
+               defaults_override={'b': 1}, extra=True)
     out = [
+        ([Aovr], ['cls', 'A']),
+        ([Aovr], ['list', ['cls', 'A']]),
+        ([Aovx], ['cls', 'A']),
         ([Aunt], ['cls', 'A']),
         ([Adef], ['cls', 'A']),
         ([Aexd], ['cls', 'A']),
